@@ -425,6 +425,17 @@ func redactXml(obj interface{}, path string) (xmlValue []byte, err error) {
 		return
 	}
 
+	// Redact only what exists, `SetValueForPath` adds the last key if it's missing
+	var values []interface{}
+	values, err = mv.ValuesForPath(path)
+	if err != nil {
+		return
+	}
+	if len(values) < 1 {
+		err = errors.New("No match")
+		return
+	}
+
 	err = mv.SetValueForPath(REDACTED, path)
 	if err != nil {
 		return
@@ -461,7 +472,8 @@ func redactRecursively(obj interface{}, paths []string) (newObj interface{}, err
 
 		if len(xmlPaths) > 1 {
 			var xmlValue []byte
-			xmlValue, err = redactXml(result[0], xmlPaths[1])
+			// `a.xml().b.c` leaves `.b.c` behind, mxj paths don't start with a dot
+			xmlValue, err = redactXml(result[0], strings.TrimPrefix(xmlPaths[1], "."))
 			if err != nil {
 				return
 			}
